@@ -101,3 +101,38 @@ package lua
 //@ modifies nothing
 //@ loop 1 invariant frame == nil || frame == ls.currentFrame || onChain(ls.currentFrame, frame)
 //@ loop 1 invariant (level == old(level) && frame == ls.currentFrame) || (old(level) >= 1 && ls.currentFrame != nil && frame == ls.currentFrame.Parent && level == old(level) - 1 - ite(ls.currentFrame.Fn.IsG, 0, ls.currentFrame.TailCall)) || (old(level) >= 2 && ls.currentFrame != nil && level < old(level) - 1)
+
+// ---------------------------------------------------------------------------
+// GetInfo(what, dbg, fn): each option letter fills its fields of the Debug record from the frame / function. The option
+// string is walked by a range over a string, which the engine abstracts (any sequence of characters): what is proved is
+// that WHENEVER an option has been processed its fields hold the documented values - after any prefix of any option
+// string (loop invariant). 'S': what = "main" for a frame without a caller (main chunk, coroutine body), "G" for a host
+// function, "tail" for a Lua function entered by a tail call, else "Lua"; and for EVERY Lua function (whatever its kind)
+// source, linedefined and lastlinedefined are those of its prototype. 'l': currentline is the line recorded for the
+// instruction the frame is executing (Pc - 1), -1 for a host function or without a frame. 'u': number of upvalues.
+// ---------------------------------------------------------------------------
+//@ extern strings.HasPrefix
+//@ assume strings.HasPrefix(s, prefix) is true exactly when s starts with prefix (Go standard library; stated for one-character prefixes)
+//@ noraise
+//@ ensures  (result ==> len(s) >= len(prefix)) && (len(prefix) == 1 ==> (result <==> len(s) >= 1 && sbyte(s, 0) == sbyte(prefix, 0)))
+//@ modifies nothing
+//@ trusted (*LState).rawFrameFuncName [C17]
+//@ assume rawFrameFuncName only reads the calling frame's code to guess a name (not verified)
+//@ noraise
+//@ modifies nothing
+//@ trusted newApiErrorS [C17]
+//@ assume newApiErrorS allocates an error value
+//@ noraise
+//@ modifies nothing
+
+//@ define whatOf(dbg *Debug, f *LFunction) string = ite(dbg.frame != nil && dbg.frame.Parent == nil, "main", ite(f.IsG, "G", ite(dbg.frame != nil && dbg.frame.TailCall > 0, "tail", "Lua")))
+//@ func (*LState).GetInfo [C17]
+//@ requires ls != nil && dbg != nil && fn != nil && dbg.What == "" && (forall g *LFunction :: g != nil && !g.IsG ==> g.Proto != nil && offset(g.Proto.DbgSourcePositions) == 0)
+//@ requires dbg.frame != nil ==> dbg.frame.Fn != nil && (!dbg.frame.Fn.IsG ==> 0 <= dbg.frame.Pc && dbg.frame.Pc <= len(dbg.frame.Fn.Proto.DbgSourcePositions))
+// without the ">" prefix the function is the frame's (so there must be a frame); with it, a record that does carry a frame describes that very function
+//@ requires (isFn(fn) ==> fn(fn) != nil) && ((len(what) == 0 || sbyte(what, 0) != 62) ==> dbg.frame != nil) && (len(what) >= 1 && sbyte(what, 0) == 62 && isFn(fn) && dbg.frame != nil ==> dbg.frame.Fn == fn(fn))
+//@ modifies dbg.Name, dbg.What, dbg.Source, dbg.CurrentLine, dbg.NUpvalues, dbg.LineDefined, dbg.LastLineDefined
+//@ loop 1 invariant f != nil && dbg.frame == old(dbg.frame) && (dbg.frame != nil ==> f == dbg.frame.Fn)
+//@ loop 1 invariant (dbg.What == "" && dbg.Source == old(dbg.Source) && dbg.LineDefined == old(dbg.LineDefined) && dbg.LastLineDefined == old(dbg.LastLineDefined)) || (dbg.What == whatOf(dbg, f) && (!f.IsG ==> dbg.Source == f.Proto.SourceName && dbg.LineDefined == f.Proto.LineDefined && dbg.LastLineDefined == f.Proto.LastLineDefined))
+//@ loop 1 invariant dbg.CurrentLine == old(dbg.CurrentLine) || dbg.CurrentLine == ite(!f.IsG && dbg.frame != nil, f.Proto.DbgSourcePositions[dbg.frame.Pc - 1], 0 - 1)
+//@ loop 1 invariant dbg.NUpvalues == old(dbg.NUpvalues) || dbg.NUpvalues == len(f.Upvalues)
